@@ -56,7 +56,7 @@ theorem C10_reassembly_bounded (tail following out : Bytes) (h : recordBytes tai
 
 /-- the hypothesis of `C10_reassembly_bounded` is satisfiable: xl_tot_len = 2^32 − 1 with nothing following — the rest of
 the page is handed on as it is -/
-example : recordBytes [0xFF, 0xFF, 0xFF, 0xFF, 1, 2, 3, 4] [] = .ok [0xFF, 0xFF, 0xFF, 0xFF, 1, 2, 3, 4] := by decide +kernel
+example : recordBytes [0xFF, 0xFF, 0xFF, 0xFF, 1, 2, 3, 4] [] = .ok [0xFF, 0xFF, 0xFF, 0xFF, 1, 2, 3, 4] := by rfl
 
 /-- What fixes/entry/01 repaired: before it (Model/WalOrig.lean `getRecentWALRecords`, the same code without the
 clamp) a negative limit made `allRecords[len(allRecords)-limit:]` go out of range even for an empty directory
